@@ -158,6 +158,18 @@ pub fn check(c: &Case, st: &mut Stats) -> CheckResult {
             alt("msg_last_byte_changed", &m2, &ctx, mode, false, st)?;
         }
     }
+    // 3d. the digest in place of the message: a front-end that accepts "already hashed" input of digest
+    // length would verify the signature for M also for the message PH(M) (and the OID-prefixed digest)
+    for ph in [Mode::Sha256, Mode::Sha512, Mode::Shake128] {
+        let (oid, phm) = rf::prehash(ph, &m);
+        for vm in MODES {
+            alt(&format!("digest_{}_as_message", ph.tag()), &phm, &ctx, vm, ph == mode && vm == mode, st)?;
+        }
+        let mimic: Vec<u8> = oid.iter().chain(phm.iter()).copied().collect();
+        if mode != Mode::Pure {
+            alt(&format!("oid_digest_{}_as_message", ph.tag()), &mimic, &ctx, mode, false, st)?;
+        }
+    }
     // 4. every other pre-hash function / mode
     for other in MODES {
         if other != mode {
